@@ -444,6 +444,9 @@ class CompGen:
         b = self.small_int(w)
       else:
         b = self._expr(w, depth - 1, env)
+      if c.random() < 0.12 and width(a) == w:
+        # a SAME-width trunc / zext / sext around an operand: a no-op that must still group its operand
+        a = [c.choice(["trunc", "zext", "sext"]), a, w]
       return ["bin", op, a, b]
     if r < 0.40:
       a = self._expr(w, depth - 1, env)
